@@ -1,11 +1,17 @@
 """C19 - Unused-import warnings are exact."""
+import os
 from vlib import *
 
 ID = "C19"
+# which marking rule the working tree is expected to follow: the code as it is (default), or the
+# code after fixes/C19-exact-unused-imports.diff (VERIF_C19_MODEL=repaired)
+REPAIRED = os.environ.get("VERIF_C19_MODEL", "as-is") == "repaired"
 COQ_FILES = ["Common/Corr.v", "Model/Visibility.v", "Proofs/Visibility.v", "Model/Resolve.v",
-             "Model/UnusedImports.v", "Proofs/UnusedImports.v", "Props/C19.v"]
-PROPS = "Props/C19.v"
-THEOREMS = ["C19_resolution_independent_of_unmarked_imports", "C19_unused_warning_sound", "C19_needed_never_warned",
+             "Model/UnusedImports.v", "Proofs/UnusedImports.v", "Props/C19.v",
+             "Model/UnusedImportsFixed.v", "Proofs/UnusedImportsFixed.v", "Props/C19_repaired.v"]
+PROPS = "Props/C19_repaired.v" if REPAIRED else "Props/C19.v"
+THEOREMS = ["C19_repaired_unused_warning_iff_removable", "C19_repaired_needed_never_warned",
+            "C19_repaired_same_answers"] if REPAIRED else ["C19_resolution_independent_of_unmarked_imports", "C19_unused_warning_sound", "C19_needed_never_warned",
             "C19_unused_warning_iff_removable_refuted", "C19_unused_warning_iff_removable_partial",
             "C19_warned_iff_never_first", "C19_mark_is_first_provider", "C19_marking_traversal_is_resolveInFile",
             "C19_reference_programs_are_go_resolve"]
@@ -457,7 +463,7 @@ def world_term(case, facts):
 
 
 HEADER = ("From Coq Require Import List NArith ZArith Bool.\nImport ListNotations.\n"
-          "From PV Require Import Common.Corr Model.Visibility Model.Resolve Model.UnusedImports.\nOpen Scope N_scope.\n")
+          "From PV Require Import Common.Corr Model.Visibility Model.Resolve Model.UnusedImports Model.UnusedImportsFixed.\nOpen Scope N_scope.\n")
 
 CLASS = {1: "marked-by-options-type-lookup", 2: "first-of-several-providers", 3: "sole-provider-of-a-lookup"}
 
@@ -505,7 +511,7 @@ def run(ctx):
             if d in warned and public:
                 ctx.violation("public-import-warned", "a public import is reported as unused", rp)
             elif d in warned and not removable:
-                chans = sorted(c["_channels"].get(d, [])) or ["re-export"]
+                chans = sorted(c["_channels"].get(d, [])) or ["other"]
                 ctx.violation("needed-import-warned:" + chans[0],
                               "an import is reported as unused although the file does not compile to the same descriptor without it", rp)
             elif d not in warned and not public and removable:
@@ -522,7 +528,7 @@ def run(ctx):
         c["_wt"], c["_pid"] = wt, pid
     for c in cases[:3] + cases[-2:]:
         ctx.sample({"root.proto": c["files"]["root.proto"], "imports": c["_imps"]})
-    mism, err = coq_eval_mismatches("cases_C19", HEADER, terms, "ui_chk", shard_size=ctx.budget(90, 250))
+    mism, err = coq_eval_mismatches("cases_C19", HEADER, terms, "ui_chk_r" if REPAIRED else "ui_chk", shard_size=ctx.budget(90, 250))
     if err:
         raise RuntimeError(err)
     broken = set()
@@ -547,7 +553,7 @@ def run(ctx):
             ci, d, rp = ex_meta[k]
             c = cases[ci]
             ex_terms.append("XC %s %d [%s] %d %d" % (c["_wt"], c["_pid"][c["root"]], "; ".join(c["_refs"]), c["_pid"][d], cls))
-        mm, err = coq_eval_mismatches("cases_C19x%d" % cls, HEADER, ex_terms, "ex_chk", shard_size=ctx.budget(40, 250))
+        mm, err = coq_eval_mismatches("cases_C19x%d" % cls, HEADER, ex_terms, "ex_chk_r" if REPAIRED else "ex_chk", shard_size=ctx.budget(40, 250))
         if err:
             raise RuntimeError(err)
         mm = set(mm)
